@@ -75,10 +75,12 @@ def mutate(pk, rng, how):
     if how == 'extra-members':
         # (only the document signatures may go: a rewrite invalidates them; everything else under META-INF is a file like any other)
         man = list(pk['manifest'] or []) + [('Extra/', ''), ('Extra/data.bin', 'application/octet-stream'), ('Configurations2/verif.xml', 'text/xml'), ('META-INF/documentsignatures.xml', 'text/xml'),
-                                            ('META-INF/macrosignatures.xml', 'text/xml'), ('META-INF/verif-notes.txt', 'text/plain'), ('Extra/empty.bin', 'application/octet-stream'), ('mimetype.bak', 'text/plain')]
+                                            ('META-INF/macrosignatures.xml', 'text/xml'), ('META-INF/verif-notes.txt', 'text/plain'), ('Extra/empty.bin', 'application/octet-stream'), ('mimetype.bak', 'text/plain'),
+                                            ('Object 977/content.xml', 'text/xml'), ('Object 978/Versions/content.xml', 'text/xml'), ('Object 978/Versions/settings.xml', 'text/xml')]      # files that look like parts of an object, but no such object folder is listed
         return L.repack(pk, members={'Extra/data.bin': bytes(rng.randrange(256) for _ in range(50)), 'Configurations2/verif.xml': b'<a xmlns="urn:x"/>',
                                      'META-INF/documentsignatures.xml': b'<s xmlns="urn:sig"/>', 'META-INF/macrosignatures.xml': b'<m xmlns="urn:sig"/>',
-                                     'META-INF/verif-notes.txt': b'notes', 'Extra/empty.bin': b'', 'mimetype.bak': b'x'}, manifest=man)
+                                     'META-INF/verif-notes.txt': b'notes', 'Extra/empty.bin': b'', 'mimetype.bak': b'x',
+                                     'Object 977/content.xml': b'<a xmlns="urn:x">kept as it is</a>', 'Object 978/Versions/content.xml': b'<v xmlns="urn:x"/>', 'Object 978/Versions/settings.xml': b'<s xmlns="urn:x"/>'}, manifest=man)
     if how == 'renumber-objects':
         folders = [f for f in L.folders_of(pk) if f]
         if not folders: return None
